@@ -596,6 +596,7 @@ type sim struct {
 	flags         map[string]int
 	actionsDone   int
 	fairMode      bool
+	maxOps        int
 	snapRegistry  map[string]*appSnap
 	everLeaderIDs map[uint64]bool
 }
@@ -1352,6 +1353,9 @@ func (s *sim) propose(r *simReplica, key string, n int) {
 	if !r.running() || r.kind == kWitness {
 		return
 	}
+	if s.maxOps > 0 && len(s.ops)+n > s.maxOps && !s.fairMode {
+		return
+	}
 	var ents []pb.Entry
 	for i := 0; i < n; i++ {
 		s.nextKey++
@@ -1367,6 +1371,9 @@ func (s *sim) propose(r *simReplica, key string, n int) {
 
 func (s *sim) readIndex(r *simReplica, key string) {
 	if !r.running() || r.kind == kWitness {
+		return
+	}
+	if s.maxOps > 0 && len(s.ops) >= s.maxOps && !s.fairMode {
 		return
 	}
 	s.nextCtx++
